@@ -216,6 +216,10 @@ def xe (req : Bool) (text : Str) (bind : List (Option Str × Str)) (expr value :
                     | some .doc => true | some (.item (.elem _ _ _)) => true | some (.attr _ _) => true | _ => false) then .fail
               else if ks.isEmpty then .ok (printDoc d ++ ['\n'])
               else if !rebuildableL repl then .fail
+              -- a selected attribute takes text and entity references only - also one that lies in a
+              -- subtree another selected node has already dropped (the tool works through the whole node-set)
+              else if (ks.any fun k => match locate req d k with | some (.attr _ _) => true | _ => false) &&
+                      (attrPieces repl).isNone then .fail
               else if ks.contains [] then
                 -- the document node: its children are replaced; exactly one root element is required
                 (match topsOf repl with
